@@ -2,7 +2,7 @@
    harness-supplied oracle encodings json.Marshal(text) of every header cell
    and every body cell, and what json.Render really returned) or a parser
    self-validation case (some bytes with encoding/json's verdict on them). *)
-From Tab Require Export Run.Glue Model.Json Spec.JsonParse Spec.JsonExpect Proofs.JsonFrame Proofs.JsonChecked.
+From Tab Require Export Run.Glue Model.Json Spec.JsonParse Spec.JsonExpect Proofs.JsonFrame Proofs.JsonChecked Model.JsonString.
 
 Inductive c07case :=
 | CRender (v : view) (keys : list (list N)) (fbs : list (list (list N))) (obs : res (list N))
@@ -117,7 +117,11 @@ Definition C07_model_of (v : view) (tbl : list (list N * list N)) : res (list N)
    an oracle encoding this parser rejects, or the Coq parser disagreeing with
    encoding/json on a self-validation input) *)
 Definition render_code (v : view) (tbl : list (list N * list N)) (shapes : bool) (obs : res (list N)) : N :=
-  (code (res_eqb bytes_eqb (C07_model_of v tbl) obs) (C07_ok v tbl obs)
+  (code (res_eqb bytes_eqb (C07_model_of v tbl) obs
+         (* every string encoding json.Marshal produced for this table is what the encoder model
+            (Model/JsonString.v, c07_string_encoding) computes *)
+         && forallb (fun p => bytes_eqb (go_json_string (fst p)) (snd p)) tbl)
+        (C07_ok v tbl obs)
    + (if shapes && oracles_ok tbl v then 0 else 4))%N.
 
 (* one render of a history: the render case proper, and "an error comes with no text" *)
